@@ -126,6 +126,14 @@ def laws(rng, quick):
               A.Sequence(A.Struct(A.Renamed("a", by)), by), [1, 2, 3], [[{"a": 1}, 2], [1, 2], [{"a": 1}]]))
     L.append(("Array >> b<->Sequence(Array, b)", ({"k": "Opaque", "desc": "Byte[2] >> Byte"}, lambda: cs.Byte[2] >> cs.Byte),
               A.Sequence(A.Array(2, by), by), [2, 3, 4], [[[1, 2], 3], [1, 2, 3], [[1], 3]]))
+    # the macro and what it stands for, nested, with elements sized by a keyword; interpreted and compiled
+    pa_ast = A.Struct(A.Renamed("tag", by), A.Renamed("arr", A.PrefixedArray(by, A.BytesInteger(A.T("_params", "k")))))
+    def fs():
+        return cs.Struct("tag" / cs.Byte, "arr" / cs.FocusedSeq("items", "count" / cs.Rebuild(cs.Byte, cs.len_(cs.this.items)), "items" / cs.Array(cs.this.count, cs.BytesInteger(cs.this._params.k))))
+    pvals = [{"tag": 7, "arr": [1, 2]}, {"tag": 7, "arr": []}, {"tag": 7, "arr": [65535, 0, 1]}]
+    L.append(("PrefixedArray<->FocusedSeq expansion (nested, _params)", pa_ast, ({"k": "Opaque", "desc": "Struct(tag, FocusedSeq expansion of PrefixedArray) using _params"}, fs), [1, 2, 4, 6], pvals))
+    L.append(("PrefixedArray<->compiled FocusedSeq expansion (nested, _params)", pa_ast, ({"k": "Opaque", "desc": "compiled Struct(tag, FocusedSeq expansion) using _params"}, lambda: fs().compile()), [1, 2, 4, 6], pvals))
+    L.append(("PrefixedArray<->compiled PrefixedArray (nested, _params)", pa_ast, ({"k": "Opaque", "desc": "compiled Struct(tag, PrefixedArray) using _params"}, lambda: A.realize(pa_ast).compile()), [1, 2, 4, 6], pvals))
     L.append(("name/x<->Renamed", ({"k": "Opaque", "desc": "Struct('n'/Byte)"}, lambda: cs.Struct("n" / cs.Byte)), ({"k": "Opaque", "desc": "Struct(Renamed(Byte,'n'))"}, lambda: cs.Struct(cs.Renamed(cs.Byte, newname="n"))), [0, 1, 2], [{"n": 1}, {}, {"n": 256}]))
     return L
 
@@ -163,19 +171,21 @@ def run(ctx):
                         inputs += [gen.rbytes(rng, n) for _ in range(10 if quick else 40)]
                 if quick and len(inputs) > 60:
                     inputs = rng.sample(inputs, 60)
+                # a compiled right-hand side promises what compile() promises: the same results wherever the left-hand side accepts
+                clause = "C04.equiv" if "compiled" in name else CLAUSE
                 for data in inputs:
                     i1, c1 = camp.parse(la, lc, data, 0, kw)
                     i2, c2 = camp.parse(ra, rc, data, 0, kw)
-                    camp.sh.session(CLAUSE, [i1, i2], tag=name)
+                    camp.sh.session(clause, [i1, i2], tag=name)
                     nt += 1
                 for v in vals:
                     i1, c1 = camp.build(la, lc, v, b"", kw)
                     i2, c2 = camp.build(ra, rc, v, b"", kw)
-                    camp.sh.session(CLAUSE, [i1, i2], tag=name)
+                    camp.sh.session(clause, [i1, i2], tag=name)
                     nt += 1
                 camp.sh.maybe_flush()
         ctx.sample({"laws": sorted(names)})
         vs = camp.validate()
-        campaign.judge(ctx, camp, vs, conformance=None, clauses=(CLAUSE,))
+        campaign.judge(ctx, camp, vs, conformance=None, clauses=(CLAUSE, "C04.equiv"))
         ctx.cov["distinct_nontrivial"] = nt
         ctx.cov["law_instances"] = len(names)
